@@ -817,6 +817,62 @@ func (p *Prog) mustPassUnless(from ssa.Instruction, rel func(ssa.Instruction) bo
 	return bad
 }
 
+// pathAvoiding: some path from just after `from` (or from the function entry when from is nil) reaches an
+// instruction satisfying target without first passing one satisfying rel, not following pruned edges. Returns
+// the target reached, or nil.
+func (p *Prog) pathAvoiding(f *ssa.Function, from ssa.Instruction, target, rel func(ssa.Instruction) bool, prune func(*ssa.If, int) bool) ssa.Instruction {
+	seen := map[*ssa.BasicBlock]bool{}
+	var hit ssa.Instruction
+	var walk func(b *ssa.BasicBlock, idx int)
+	walk = func(b *ssa.BasicBlock, idx int) {
+		if hit != nil {
+			return
+		}
+		for k := idx; k < len(b.Instrs); k++ {
+			i := b.Instrs[k]
+			if rel(i) {
+				return
+			}
+			if target(i) {
+				hit = i
+				return
+			}
+		}
+		if p.noReturn(b) {
+			return
+		}
+		ifi, _ := b.Instrs[len(b.Instrs)-1].(*ssa.If)
+		for si, s := range b.Succs {
+			if ifi != nil && prune != nil && prune(ifi, si) {
+				continue
+			}
+			if !seen[s] {
+				seen[s] = true
+				walk(s, 0)
+			}
+		}
+	}
+	if from == nil {
+		seen[f.Blocks[0]] = true
+		walk(f.Blocks[0], 0)
+	} else {
+		walk(from.Block(), instrIndex(from)+1)
+	}
+	return hit
+}
+
+// edgeImplies: the If edge (succ index) carries the given atom.
+func (p *Prog) edgeImplies(f *ssa.Function, at string) func(*ssa.If, int) bool {
+	return func(ifi *ssa.If, succ int) bool {
+		for _, a := range p.factsOf(f).atomsOf(ifi.Cond, succ == 0, map[*ssa.BasicBlock]AtomSet{}, 0) {
+			if a == at {
+				return true
+			}
+		}
+		return false
+	}
+}
+
 // usesOf: instructions that use value v (referrers), following trivial conversions.
 func usesOf(v ssa.Value) []ssa.Instruction {
 	var out []ssa.Instruction
